@@ -1165,7 +1165,7 @@ class Array:
         extended = Array(legs, self.dtype, qtotal)
         extended._labels = labels
         slices = [slice(None, None)] * self.rank
-        slices[axis] = i
+        slices.insert(axis, i)
         extended[tuple(slices)] = self  # use existing implementation
         return extended
 
